@@ -27,7 +27,7 @@ Print Assumptions C16_shutdown_flag_only_after_cancel.
 
 (* a worker inside an SPI call that waits on its context is released by the main loop's exit *)
 Theorem C16_exit_releases_blocked_worker : forall s k, reach s -> l_worker s = WBusy k -> l_main s = MExited ->
-  ctx_done (l_reg s) k = true /\ exists s', lstep s LSpiReleased = Some s' /\ l_worker s' = WSelect.
+  ctx_done (l_reg s) k = true /\ exists s', lstep s (LSpiReleased ENothing) = Some s' /\ l_worker s' = WSelect.
 Proof. exact spi_released_by_shutdown. Qed.
 Print Assumptions C16_exit_releases_blocked_worker.
 
@@ -42,3 +42,10 @@ Theorem C16_stopped_timer_never_triggers : forall ops1 ops2 j x h v,
   ~ In (j, h, v) (tm_delivered (tm_run (ops1 ++ ops2))).
 Proof. exact stopped_before_fire_never_triggers. Qed.
 Print Assumptions C16_stopped_timer_never_triggers.
+
+(* tie to the real runtime: the acceptor that the check evaluates on every node's recorded observation sequence
+   (callbacks, SPI calls, timer arming, elections, exit) accepts every run of the two-goroutine model *)
+From LH Require Import Loops Runtime RuntimeFacts.
+Theorem C16_model_runs_are_accepted : forall ls s, lrun l_init ls = Some s -> rt_check (lobs l_init ls) = true.
+Proof. exact model_runs_are_accepted. Qed.
+Print Assumptions C16_model_runs_are_accepted.
